@@ -104,6 +104,7 @@ PROPS = {
     "C17": proc("corr.C17", "PROC", "props/C17.v", "fault-free continuous and test sinks, motion-sink refusals; compared projection: continuous and test sinks; spec S17c && S17t"),
     "C18": {"stages": [{"harness": "WRITER", "corr": "corr.C18", "n": {"quick": 36, "thorough": 400}, "shard": 3},
                        {"harness": "WRITERLAG", "corr": "corr.C18lag", "n": {"quick": 1, "thorough": 8}, "shard": 8},
+                       {"harness": "WRECONN", "corr": "corr.C18lag", "n": {"quick": 1, "thorough": 8}, "shard": 8, "background": True},
                        {"harness": "WRITERROT", "corr": "corr.C18lag", "n": {"quick": 1, "thorough": 4}, "shard": 8, "background": True}],
             "theorems": "props/C18.v",
             "level_text": "Coq theorems on a transition system of handleConn's reader loop and the writer goroutine (every schedule) and on the CPTR byte encoder/parser - partial: real goroutine "
@@ -153,7 +154,8 @@ PROPS = {
                                          "file names have millisecond resolution: the harness paces frames (SIOCOUTQ) so that recordings get distinct names"]},
     "C14": {"stages": [{"harness": "HEADER", "corr": "corr.C14h", "n": {"quick": 300, "thorough": 5000}, "shard": 40},
                        {"harness": "E2E", "corr": "corr.E2E14", "n": {"quick": 6, "thorough": 150}, "shard": 1},
-                       {"harness": "INBAND", "corr": "corr.E2E14", "n": {"quick": 1, "thorough": 1}, "shard": 1}],
+                       {"harness": "INBAND", "corr": "corr.E2E14", "n": {"quick": 1, "thorough": 1}, "shard": 1},
+                       {"harness": "RECONN", "corr": "corr.C18lag", "n": {"quick": 2, "thorough": 8}, "shard": 8}],
             "theorems": "props/C14.v",
             "level_text": "Coq theorems on a reader model over chunked byte streams (chunking irrelevant, round trip, truncation errors) + static agreement of both daemons' constants from the Go AST - partial: "
                           "the YAML codec enters as validated hypotheses; tied by the real ReadHeaderInfo on arbitrary segmentations and by end-to-end sessions through the real handleConn.",
